@@ -38,19 +38,18 @@ theorem last_ts (pre : Fsm) (e : Int) (now : Nat) : (stepSession pre e now).last
   stepTimedAux_lastTs _ _ 1 pre e now
 
 /-- one step of switch_state_session satisfies the property predicate, for every state, input and time -/
-theorem step (pre : Fsm) (hs : pre.state < 4) (e : Int) (now : Nat) (hn : now < u64) (hl : pre.lastTs ≤ now) :
+theorem step (pre : Fsm) (hs : pre.state < 4) (e : Int) (now : Nat) (hn : now < u64) :
     holdsC15Step (timeoutOf X.sessionTimeouts pre.state) pre (stepSession pre e now) e now = true := by
-  have hd : diff64 now pre.lastTs = now - pre.lastTs := diff64_of_le _ _ hl hn
   unfold holdsC15Step
   split
   · rfl
-  · by_cases hw : timeoutOf X.sessionTimeouts pre.state = 0 ∨ now - pre.lastTs ≤ timeoutOf X.sessionTimeouts pre.state
-    · have e' := stepTimed_within X.sessionTable X.sessionTimeouts pre e now (by rw [hd]; exact hw)
+  · by_cases hw : timeoutOf X.sessionTimeouts pre.state = 0 ∨ diff64 now pre.lastTs ≤ timeoutOf X.sessionTimeouts pre.state
+    · have e' := stepTimed_within X.sessionTable X.sessionTimeouts pre e now hw
       unfold stepSession
       rw [e']
       simp only [if_pos hw, lookup_spec pre.state hs e, decide_true]
     · have hx : timeoutOf X.sessionTimeouts pre.state ≠ 0 ∧ diff64 now pre.lastTs > timeoutOf X.sessionTimeouts pre.state := by
-        rw [hd]; constructor
+        constructor
         · intro h0; exact hw (Or.inl h0)
         · omega
       have e' := stepTimed_expired X.sessionTable X.sessionTimeouts pre e now hn hx
@@ -63,19 +62,18 @@ theorem step (pre : Fsm) (hs : pre.state < 4) (e : Int) (now : Nat) (hn : now < 
 
 /-- the same when the clock moves WHILE the call runs (`stepSessionR`: reading `now1` on entry, `now2` — whatever it is — on the
     second level after an expiry): the decision is the one for the time of entry ... -/
-theorem step_moving_clock (pre : Fsm) (hs : pre.state < 4) (e : Int) (now1 now2 : Nat) (hn : now1 < u64) (hl : pre.lastTs ≤ now1) :
+theorem step_moving_clock (pre : Fsm) (hs : pre.state < 4) (e : Int) (now1 now2 : Nat) (hn : now1 < u64) :
     holdsC15Step (timeoutOf X.sessionTimeouts pre.state) pre (stepSessionR pre e now1 now2) e now1 = true := by
-  have hd : diff64 now1 pre.lastTs = now1 - pre.lastTs := diff64_of_le _ _ hl hn
   unfold holdsC15Step
   split
   · rfl
-  · by_cases hw : timeoutOf X.sessionTimeouts pre.state = 0 ∨ now1 - pre.lastTs ≤ timeoutOf X.sessionTimeouts pre.state
-    · have e' := stepTimedR_within X.sessionTable X.sessionTimeouts pre e now1 now2 (by rw [hd]; exact hw)
+  · by_cases hw : timeoutOf X.sessionTimeouts pre.state = 0 ∨ diff64 now1 pre.lastTs ≤ timeoutOf X.sessionTimeouts pre.state
+    · have e' := stepTimedR_within X.sessionTable X.sessionTimeouts pre e now1 now2 hw
       unfold stepSessionR
       rw [e']
       simp only [if_pos hw, lookup_spec pre.state hs e, decide_true]
     · have hx : timeoutOf X.sessionTimeouts pre.state ≠ 0 ∧ diff64 now1 pre.lastTs > timeoutOf X.sessionTimeouts pre.state := by
-        rw [hd]; constructor
+        constructor
         · intro h0; exact hw (Or.inl h0)
         · omega
       unfold stepSessionR
@@ -86,12 +84,11 @@ theorem step_moving_clock (pre : Fsm) (hs : pre.state < 4) (e : Int) (now1 now2 
       simp only [if_neg hw, h1, decide_true]
 
 /-- ... and an event that does not find the session expired stamps the time of entry, not a later reading -/
-theorem stamp_at_entry (pre : Fsm) (e : Int) (now1 now2 : Nat) (hn : now1 < u64) (hl : pre.lastTs ≤ now1)
-    (hw : timeoutOf X.sessionTimeouts pre.state = 0 ∨ now1 - pre.lastTs ≤ timeoutOf X.sessionTimeouts pre.state) :
+theorem stamp_at_entry (pre : Fsm) (e : Int) (now1 now2 : Nat) (hn : now1 < u64)
+    (hw : timeoutOf X.sessionTimeouts pre.state = 0 ∨ diff64 now1 pre.lastTs ≤ timeoutOf X.sessionTimeouts pre.state) :
     (stepSessionR pre e now1 now2).lastTs = now1 := by
-  have hd : diff64 now1 pre.lastTs = now1 - pre.lastTs := diff64_of_le _ _ hl hn
   unfold stepSessionR
-  rw [stepTimedR_within X.sessionTable X.sessionTimeouts pre e now1 now2 (by rw [hd]; exact hw)]
+  rw [stepTimedR_within X.sessionTable X.sessionTimeouts pre e now1 now2 hw]
 
 /-- with a clock that stands still during the call this is `stepSession` -/
 theorem moving_same (pre : Fsm) (e : Int) (now : Nat) : stepSessionR pre e now now = stepSession pre e now :=
@@ -106,26 +103,31 @@ def stepsOk (a : Fsm) : List (Int × Nat) → Bool
   | (e, now) :: rest =>
     holdsC15Step (timeoutOf X.sessionTimeouts a.state) a (stepSession a e now) e now && stepsOk (stepSession a e now) rest
 
-def monotoneFrom (t : Nat) : List (Int × Nat) → Prop
+/-- all time stamps are 64-bit values; nothing else is assumed about them: the elapsed time is taken modulo 2^64, as the C code
+    takes it, so a seconds counter that wraps — or a clock that steps backwards — is covered -/
+def timesOk : List (Int × Nat) → Prop
   | [] => True
-  | (_, now) :: rest => t ≤ now ∧ now < u64 ∧ monotoneFrom now rest
+  | (_, now) :: rest => now < u64 ∧ timesOk rest
 
 /-- every step of every event/time history meets the predicate -/
-theorem history (a : Fsm) (hs : a.state < 4) (evs : List (Int × Nat)) (hm : monotoneFrom a.lastTs evs) :
+theorem history (a : Fsm) (hs : a.state < 4) (evs : List (Int × Nat)) (hm : timesOk evs) :
     stepsOk a evs = true ∧ (run a evs).state < 4 := by
   induction evs generalizing a with
   | nil => exact ⟨rfl, hs⟩
   | cons ev rest ih =>
     obtain ⟨e, now⟩ := ev
-    obtain ⟨h1, h2, h3⟩ := hm
+    obtain ⟨h2, h3⟩ := hm
     have hs' := state_in_range a hs e now
-    have hl' := last_ts a e now
-    have := ih (stepSession a e now) hs' (by rw [hl']; exact h3)
-    simp only [stepsOk, run, step a hs e now h2 h1, this.1, Bool.and_self, true_and]
+    have := ih (stepSession a e now) hs' h3
+    simp only [stepsOk, run, step a hs e now h2, this.1, Bool.and_self, true_and]
     exact this.2
 
 /-- non-vacuity of the moving-clock form: an event entered in second 51 and finished in second 52 stamps 51 -/
 example : (stepSessionR ⟨3, 51⟩ 2 51 52).lastTs = 51 ∧ (stepSessionR ⟨3, 49⟩ 2 51 52) = ⟨1, 52⟩ := by decide
+
+/-- across the wrap of the seconds counter: one second elapsed (2^64 - 1 -> 0) keeps a Complete session, three (2^64 - 2 -> 1) expire it -/
+example : (stepSession ⟨3, 18446744073709551615⟩ 5 0).state = 3 ∧ (stepSession ⟨3, 18446744073709551614⟩ 5 1).state = 1 ∧
+    holdsC15Step 1 ⟨3, 18446744073709551614⟩ (stepSession ⟨3, 18446744073709551614⟩ 5 1) 5 1 = true := by decide
 
 /-- non-vacuity: a Complete session reset within its timeout goes to Nascent; the cell repaired in 79bd955 -/
 example : (stepSession ⟨3, 10⟩ 1 10).state = 1 ∧ holdsC15Step 1 ⟨3, 10⟩ (stepSession ⟨3, 10⟩ 1 10) 1 10 = true := by decide
